@@ -178,6 +178,25 @@ def loop_label(F, rep):
            "IRContext is only rebuilt in the Loop arm (%d literal there; elsewhere: %s)" % (len(lits), other), line_of(arm))
     rep.ob("LOOP-LABEL", "IRContext::new|root-only", news == ["IRCodeGen::compile"],
            "IRContext::new() (no enclosing loop) is only created by %s" % news, None)
+    # ... and a function that starts from a fresh context is never entered from one that carries a context: the label of
+    # the enclosing loop would be dropped for everything below (`x := if c do continue else do i end` inside a loop)
+    fresh_fns = set()
+    carrying = set()
+    for fn in F.fns_in(IRM):
+        if any(callee(c) == IRM + "IRContext::new" for c in nodes(fn_body(fn), "Call")):
+            fresh_fns.add(fn["_path"])
+        if any(ty_is(prm["ty"], IRM + "IRContext") for prm in fn["params"]):
+            carrying.add(fn["_path"])
+    dropped = []
+    for p in sorted(carrying):
+        for c in nodes(fn_body(F.fn(p))):
+            if c.get("k") in ("Call", "MethodCall") and callee(c) in fresh_fns:
+                dropped.append("%s -> %s" % (last(p, 2), last(callee(c), 2)))
+    rep.ob("LOOP-LABEL", "IRContext|never-dropped", not dropped,
+           "no function that carries an IRContext calls one that starts from IRContext::new()" if not dropped else
+           "%s: the lowering continues with a fresh IRContext (closest_loop = Label(0)) below a function that was handed the "
+           "enclosing loop's context; a `continue` in there is emitted as `goto L0`, a label that does not exist" % "; ".join(dropped),
+           None, sites=len(carrying))
     # Goto is only emitted with the context's label; Break only by the Break arm and the loop's own exit test
     gotos = []
     for fn in F.fns_in(IRM):
